@@ -73,7 +73,10 @@ def random_cases(rng, n, bias):
         c = H.run_history(nodes, cfg, rng, profile=prof, max_polls=bias.get("max_polls", 14), fair_after=fa,
                           fair_bound=bias.get("fair_bound", 80), cancel_p=bias.get("cancel_p", 0.04),
                           qerr_p=bias.get("qerr_p", 0.015), qnojobs_p=bias.get("qnojobs_p", 0.06),
-                          sub_ok_p=bias.get("sub_ok_p", 0.85))
+                          sub_ok_p=bias.get("sub_ok_p", 0.85),
+                          # a share of the histories is driven through the REAL Conductor.monitor_study loop
+                          # (cancel request = the .cancel.lock file, poll boundary = the loop's sleep)
+                          via_conductor=rng.random() < bias.get("conductor_p", 0.4))
         c["origin"] = "random"
         c["shape"] = shape
         c["fair_after"] = fa
@@ -86,9 +89,10 @@ def corpus_cases(pid):
     for f in sorted(glob.glob(os.path.join(common.CORPUS, pid, "*.json"))) + \
             sorted(glob.glob(os.path.join(common.CORPUS, "exec", "*.json"))):
         d = json.load(open(f))
-        c = H.run_history(d["nodes"], d["cfg"], random.Random(0), scripted_pins=d["pins"])
-        c["origin"] = "corpus:" + os.path.basename(f)
-        out.append(c)
+        for via in (False, True):
+            c = H.run_history(d["nodes"], d["cfg"], random.Random(0), scripted_pins=d["pins"], via_conductor=via)
+            c["origin"] = "corpus:" + os.path.basename(f)
+            out.append(c)
     return out
 
 
@@ -189,6 +193,7 @@ def run_exec(ck, pidnum, bias, quick_n=500, thorough_n=12000, tiny=None):
     for c in cases:
         dist["end:" + (c["polls"][-1]["status"] if c["polls"] else "none")] += 1
         dist["origin:" + c.get("origin", "?").split(":")[0]] += 1
+        dist["driver:" + ("Conductor.monitor_study" if c.get("via_conductor") else "direct")] += 1
         dist["polls:%02d" % min(len(c["polls"]), 20)] += 1
         dist["nodes:%d" % len(c["nodes"])] += 1
         dist["throttle:%d" % min(c["cfg"]["throttle"], 4)] += 1
